@@ -274,3 +274,65 @@ Section Order.
       + cbn [enc_trace]. exact (IH _ _ _ _ H).
   Qed.
 End Order.
+
+(* ---- what the RECEIVING endpoint decodes.  HPACK itself is not modelled; its correctness is the hypothesis
+   [Henc]: a decoder that is in step with the relay's encoder decodes the next encoded block to the list that
+   was encoded and stays in step (the encoder's table-size changes travel in-band, [Hres]). *)
+Section Receiver.
+  Variables estate rstate : Type.
+  Variable enc : estate -> list field -> list N * estate.
+  Variable eresize : estate -> N -> estate.
+  Variable rdec : rstate -> list N -> option (list field) * rstate.
+  Variable Sync : estate -> rstate -> Prop.
+  Hypothesis Henc : forall est rst f bytes est', Sync est rst -> enc est f = (bytes, est') ->
+    exists rst', rdec rst bytes = (Some f, rst') /\ Sync est' rst'.
+  Hypothesis Hres : forall est rst v, Sync est rst -> Sync (eresize est v) rst.
+
+  (* the receiver decodes the header blocks in the order they arrive *)
+  Fixpoint rdecode (rst : rstate) (bl : list (list N)) : list (option (list field)) * rstate :=
+    match bl with
+    | [] => ([], rst)
+    | b :: r => let '(o, rst1) := rdec rst b in let '(os, rst2) := rdecode rst1 r in (o :: os, rst2)
+    end.
+
+  (* the header lists of the header frames in what a relay wrote, in wire order *)
+  Definition hdr_lists (l : list oframe) : list (list field) :=
+    flat_map (fun o => match o with
+                       | OQ (QHdr _ _ _ f _) => [f]
+                       | OQ (QPush _ _ f _) => [f]
+                       | _ => [] end) l.
+
+  Theorem receiver_decodes_what_was_queued : forall l est maxp l' est' rst,
+    run_script enc eresize est maxp l = Some (l', est') -> Sync est rst ->
+    fst (rdecode rst (blocks l')) = map Some (hdr_lists l') /\ hdr_lists l' = hdr_lists l /\
+    Sync est' (snd (rdecode rst (blocks l'))).
+  Proof.
+    induction l as [|o r IH]; intros est maxp l' est' rst H Hs; cbn [run_script] in H.
+    - inversion H; subst. cbn. auto.
+    - destruct o as [q|w|v|m].
+      + destruct (prepare enc est maxp q) as [[q' e1]|] eqn:Ep; [|discriminate].
+        destruct (run_script enc eresize e1 maxp r) as [[l1 e2]|] eqn:Er; [|discriminate].
+        inversion H; subst.
+        destruct q; cbn [prepare] in Ep.
+        * inversion Ep; subst. cbn [blocks hdr_lists flat_map app]. exact (IH _ _ _ _ _ Er Hs).
+        * inversion Ep; subst. cbn [blocks hdr_lists flat_map app]. exact (IH _ _ _ _ _ Er Hs).
+        * destruct (enc est fields) as [bytes e'] eqn:Ee. destruct (split_chunks _ _ bytes) as [ch|] eqn:Es; [|discriminate].
+          inversion Ep; subst. destruct (Henc _ _ _ _ _ Hs Ee) as [rst1 [Hd Hs1]].
+          destruct (IH _ _ _ _ rst1 Er Hs1) as [I1 [I2 I3]].
+          cbn [blocks hdr_lists flat_map app rdecode map]. fold (blocks l1) (hdr_lists l1) (hdr_lists r).
+          rewrite (proj1 (split_chunks_concat _ _ _ _ Es)), Hd.
+          destruct (rdecode rst1 (blocks l1)) as [os rst2]. cbn [fst snd] in *. rewrite I1, I2. auto.
+        * destruct (enc est fields) as [bytes e'] eqn:Ee. destruct (split_chunks _ _ bytes) as [ch|] eqn:Es; [|discriminate].
+          inversion Ep; subst. destruct (Henc _ _ _ _ _ Hs Ee) as [rst1 [Hd Hs1]].
+          destruct (IH _ _ _ _ rst1 Er Hs1) as [I1 [I2 I3]].
+          cbn [blocks hdr_lists flat_map app rdecode map]. fold (blocks l1) (hdr_lists l1) (hdr_lists r).
+          rewrite (proj1 (split_chunks_concat _ _ _ _ Es)), Hd.
+          destruct (rdecode rst1 (blocks l1)) as [os rst2]. cbn [fst snd] in *. rewrite I1, I2. auto.
+        * inversion Ep; subst. cbn [blocks hdr_lists flat_map app]. exact (IH _ _ _ _ _ Er Hs).
+        * inversion Ep; subst. cbn [blocks hdr_lists flat_map app]. exact (IH _ _ _ _ _ Er Hs).
+      + destruct (run_script enc eresize est maxp r) as [[l1 e2]|] eqn:Er; [|discriminate].
+        inversion H; subst. cbn [blocks hdr_lists flat_map app]. exact (IH _ _ _ _ _ Er Hs).
+      + cbn [hdr_lists flat_map app]. exact (IH _ _ _ _ _ H (Hres _ _ v Hs)).
+      + cbn [hdr_lists flat_map app]. exact (IH _ _ _ _ _ H Hs).
+  Qed.
+End Receiver.
